@@ -2,6 +2,9 @@
     regenerated body (Gen/AioFuns.v: [agen_with_wait_body]) under the semantics
     of Interp.v ([igstep]): a simulation relation [GR] between model states and
     machine configurations, preserved by every label, with equal outputs. *)
+(** KIND OF OBLIGATION: pin + simulation of the pinned term.  The program points below are hand-copied;
+    [agen_body_shape] pins the regenerated body to them by [reflexivity]; the simulation is about the pinned term.
+    Any change of the AST of `agen_with_wait`, behaviour-preserving or not, breaks the pin. *)
 From NL Require Import Aio.Model Aio.Syntax Aio.Interp Gen.AioFuns Aio.Merge Aio.Agen Aio.TieBase.
 From Coq Require Import Lia.
 Local Notation length := List.length (only parsing).
@@ -600,4 +603,107 @@ Lemma GR_state st c :
 Proof.
   unfold GR. destruct (g_phase st); try contradiction; intros (a & v1 & v2 & v3 & v4 & v5 & v6 & _ & -> & HW) _ _ _;
     (split; [reflexivity|]; split; [reflexivity|]; split; [apply (gw_ext _ _ _ HW) | apply (gw_srcs _ _ _ HW)]).
+Qed.
+
+(** ---- the consumer stops early: what is lost ---- *)
+
+(** No close label in Model.v; on the machine: [iclose] ends the generator at its suspension point (no
+    try/finally in the source: neither the pending `__anext__` of the wrapped iterator nor the awaited tasks
+    are cancelled); afterwards the environment goes on (the anext may complete, tasks may end).  Then the
+    wrapped iterator's items = what was yielded before the close ++ AT MOST ONE item consumed from it and
+    never yielded ++ what it still holds.  (Exceptions of awaited tasks that end after the close are not
+    surfaced to anybody.) *)
+
+Definition envstep (m : mach) (l : glabel) : mach :=
+  let w := i_w m in
+  match l with
+  | GSpawn => setw m (mkW (w_srcs w) (w_an w) (w_ext w ++ [TRunning]))
+  | GTaskEnd t r =>
+    match nth_error (w_ext w) t with
+    | Some TRunning => setw m (mkW (w_srcs w) (w_an w) (upd (w_ext w) t (TEnded r)))
+    | _ => m
+    end
+  | GSrc => setw m (complete_src w 0)
+  | _ => m
+  end.
+
+Lemma igstep_env st m l :
+  glabel_env l = true -> igstep (mkC st m) l = (mkC st (envstep m l), ((false, []), GVNone)).
+Proof.
+  destruct l; try discriminate; intros _; simpl; auto.
+  destruct (nth_error (w_ext (i_w m)) t) as [[|]|]; reflexivity.
+Qed.
+
+Lemma igrun_env es : forall st m,
+  Forall (fun l => glabel_env l = true) es ->
+  fst (igrun_from (mkC st m) es) = mkC st (fold_left envstep es m).
+Proof.
+  induction es as [|l r IH]; intros st m H; [reflexivity|].
+  inversion H; subst. simpl. rewrite igstep_env by auto.
+  specialize (IH st (envstep m l) H3). destruct (igrun_from {| c_st := st; c_m := envstep m l |} r). exact IH.
+Qed.
+
+Lemma igrun_from_app ls : forall c ls',
+  fst (igrun_from c (ls ++ ls')) = fst (igrun_from (fst (igrun_from c ls)) ls').
+Proof.
+  induction ls as [|l r IH]; intros c ls'; [reflexivity|].
+  simpl. destruct (igstep c l) as [c1 o]. specialize (IH c1 ls').
+  destruct (igrun_from c1 (r ++ ls')) as [c2 os2]. destruct (igrun_from c1 r) as [c3 os3]. simpl in *.
+  destruct (igrun_from c3 ls'). exact IH.
+Qed.
+
+Lemma gstep_env_out st l : glabel_env l = true -> snd (gstep st l) = ((false, []), GVNone).
+Proof.
+  destruct l; try discriminate; intros _; simpl; auto.
+  - destruct (nth_error (g_tasks st) t) as [[|]|]; reflexivity.
+  - destruct (g_anext st); try reflexivity. destruct (src_complete (g_rest st)); reflexivity.
+Qed.
+
+Lemma gitems_env es : forall st,
+  Forall (fun l => glabel_env l = true) es -> gitems (snd (grun_from st es)) = [].
+Proof.
+  induction es as [|l r IH]; intros st H; [reflexivity|]. inversion H; subst.
+  simpl. pose proof (gstep_env_out st l H2) as Ho. destruct (gstep st l) as [st1 o]. simpl in Ho. subst o.
+  specialize (IH st1 H3). destruct (grun_from st1 r). simpl in *. exact IH.
+Qed.
+
+Lemma GR_srcs st c : GR st c -> w_srcs (i_w (c_m c)) = [g_rest st].
+Proof.
+  unfold GR. destruct (g_phase st).
+  - intros (_ & _ & -> & _). reflexivity.
+  - intros (a & v1 & v2 & v3 & v4 & v5 & v6 & _ & _ & HW). apply HW.
+  - intros (a & v1 & v2 & v3 & v4 & v5 & v6 & _ & _ & HW). apply HW.
+  - intros (a & v1 & v2 & v3 & v4 & v5 & v6 & _ & _ & HW). apply HW.
+  - intros (_ & a & HW). apply HW.
+  - intros (_ & a & HW). apply HW.
+Qed.
+
+Theorem agen_close_loss items ls es :
+  Forall (fun l => glabel_env l = true) es ->
+  let c' := fst (igrun_from (iclose (igrun items ls)) es) in
+  let lost := ainfl (g_anext (grun items (ls ++ es))) in
+  (c_st c' = StFinished \/ c_st c' = StRaised) /\
+  items = gitems (igouts items ls) ++ lost ++ nth 0 (w_srcs (i_w (c_m c'))) [] /\
+  length lost <= 1.
+Proof.
+  intros Hes c' lost.
+  destruct (agen_tie items ls) as [Ho HR]. destruct (agen_tie items (ls ++ es)) as [_ HR2].
+  assert (Hc : c_m c' = fold_left envstep es (c_m (igrun items ls)) /\ (c_st c' = StFinished \/ c_st c' = StRaised)).
+  { unfold c', iclose. pose proof (GR_not_stuck _ _ HR) as Hns. unfold stuck in Hns.
+    destruct (igrun items ls) as [st m]. simpl in *.
+    destruct st; try discriminate; rewrite igrun_env by auto; simpl; auto. }
+  destruct Hc as [Hm Hst].
+  assert (Hm2 : c_m (igrun items (ls ++ es)) = fold_left envstep es (c_m (igrun items ls))).
+  { unfold igrun at 1. rewrite igrun_from_app. fold (igrun items ls).
+    destruct (igrun items ls) as [st m]. rewrite igrun_env by auto. reflexivity. }
+  pose proof (GR_srcs _ _ HR2) as Hsrcs. rewrite Hm2, <- Hm in Hsrcs.
+  split; [exact Hst|]. split.
+  - rewrite Hsrcs, Ho. simpl nth.
+    destruct (agen_items_full items (ls ++ es)) as [Hacc _].
+    assert (Hg : gitems (gouts items (ls ++ es)) = gitems (gouts items ls)).
+    { unfold gouts. rewrite grun_from_app. destruct (grun_from (ginit items) ls) as [st1 os1] eqn:E1.
+      pose proof (gitems_env es st1 Hes) as He. destruct (grun_from st1 es) as [st2 os2]. simpl in *.
+      rewrite gitems_app, He, app_nil_r. reflexivity. }
+    rewrite Hg in Hacc. exact Hacc.
+  - unfold lost, ainfl. destruct (g_anext (grun items (ls ++ es))) as [| |[v|]|]; simpl; lia.
 Qed.
